@@ -510,6 +510,9 @@ theorem eraseList_singleton (l : List Node) (t : Tree) (h : eraseList l = [t]) :
   | [], h => simp [eraseList] at h
   | _ :: _ :: _, h => simp [eraseList] at h
 
+theorem erase_clearParent (n : Node) : n.clearParent.erase = n.erase := by
+  cases n <;> simp [Node.clearParent, Node.erase]
+
 /-- `finish` on a configuration whose only frame is the root with exactly one child -/
 theorem finish_single (c : Cfg) (st last : St) (b : Bytes) (t : Tree) (h : Sh c st last b [([], [], [t])]) :
     ∃ n, finish c = .node n ∧ n.erase = t := by
@@ -519,7 +522,7 @@ theorem finish_single (c : Cfg) (st last : St) (b : Bytes) (t : Tree) (h : Sh c 
   | [f], hs =>
     simp only [List.map_cons, List.map_nil, List.cons.injEq, and_true, fabs, Prod.mk.injEq] at hs
     obtain ⟨n, hn, he⟩ := eraseList_singleton _ _ hs.2.2
-    exact ⟨n, by simp [finish, hst, hn], he⟩
+    exact ⟨n.clearParent, by simp [finish, hst, hn], by rw [erase_clearParent]; exact he⟩
   | [], hs => simp at hs
   | _ :: _ :: _, hs => simp at hs
 
